@@ -73,6 +73,22 @@ def _closure_result_consumer(crate, closure_body, depth=0):
     if parent is None or not parent.get("mir") or depth > 3:
         return "closure-result-discarded:unknown-parent"
     PB = M.Body(parent)
+    # the closure is bound to a local and called like a function (`let mut line = |s| writeln!(w, "{s}"); line("..")?;`): every call's
+    # result has to go where a direct write's result would
+    direct = []
+    for bb, t in PB.calls():
+        if (M.Body.callee_decl(t) or "").endswith(("ops::Fn::call", "ops::FnMut::call_mut", "ops::FnOnce::call_once")) and t.get("args"):
+            if any(o.kind == "aggregate" and o.rv.get("closure") == closure_body["path"] for o in M.trace(PB, t["args"][0], ())):
+                direct.append((bb, t))
+    if direct:
+        for bb, t in direct:
+            kinds = {k for k, _ in M.result_flow(PB, bb, t)}
+            if parent.get("closure") and any(k.endswith("returned") for k in kinds):
+                v = _closure_result_consumer(crate, parent, depth + 1)
+                kinds = {k for k in kinds if not k.endswith("returned")} | {v}
+            if not (kinds and kinds <= GOOD_FLOW | {"returned"}):
+                return "closure-result-discarded:called->" + ",".join(sorted(kinds))
+        return "returned"
     for bb, t in PB.calls():
         for a in t["args"]:
             for o in M.trace(PB, a, ()):
